@@ -266,6 +266,13 @@ def _sweep_lines(rnd):
     return out
 
 
+def _fill_build(u):
+    zone, r = S.u_pick(u[0], list(range(46, 60)))
+    d = "94to2020" if r < 0.5 else "2020to94"
+    h = None if u[3] < 0.2 else -100.0 + 3100.0 * (u[3] - 0.2) / 0.8
+    return {"dir": d, "zone": zone, "east": round(100000.0 + 800000.0 * u[1], 4), "north": round(3.4e6 + 6.0e6 * u[2], 4), "h": h, "num": "float"}
+
+
 G_ALL = [["dir"], ["zone", "east", "north"], ["h"]]
 
 SUBCHECKS = [
@@ -279,6 +286,11 @@ SUBCHECKS = [
     SubCheck("definition_axis_sweeps", check_definition, enumerate=S.sweeps(1313, _sweep_lines, 6000, 120000), nontrivial=_nt, classes=_classes,
              shards_quick=12, shards_thorough=16,
              rule="stratified sweeps: eastings along a northing and northings along an easting (6 000 / 120 000 lattice points per line, 4 lines, seeded)"),
+    SubCheck("definition_fill", check_definition, enumerate=S.fill(1323, 4, _fill_build, 24000, 480000), nontrivial=_nt, classes=_classes,
+             shards_quick=12, shards_thorough=16,
+             rule="low-discrepancy fill of zone / direction x easting x northing x height (absent / -100..3000 m): 24 000 / 480 000 points"),
+    SubCheck("there_and_back_fill", check_roundtrip, enumerate=S.fill(1324, 4, _fill_build, 12000, 240000), nontrivial=_nt, classes=_classes,
+             shards_quick=12, shards_thorough=16, rule="the same fill (another seeded point set) through the round trip"),
     SubCheck("equals_definition_whole_utm", check_definition_wide, strategy=utm_south_cases(), nontrivial=_nt, classes=_classes,
              quick=1500, thorough=100000, shards_quick=3, shards_thorough=12,
              rule="the same on the whole southern UTM domain of C02 (zones 1..60, |lon - CM| <= 30 deg)"),
